@@ -9,6 +9,7 @@ from harness.core import Prop, some
 from harness.props import res_common as R
 
 BAD = ('error', 'failure', 'uxsuccess')
+EXITS = ['exit0', 'exitNone', 'exit3']
 SEP1, SEP2 = '=' * 70, '-' * 70
 LABEL = {'ERROR': 0, 'FAIL': 1, 'UNEXPECTED SUCCESS': 2}
 
@@ -70,6 +71,16 @@ def case_class():
             @unittest.expectedFailure
             def test_uxsuccess(self):
                 pass
+
+            # code under test that ends the interpreter (argparse --help / --version do this)
+            def test_exit0(self):
+                sys.exit(0)
+
+            def test_exitNone(self):
+                sys.exit()
+
+            def test_exit3(self):
+                sys.exit(3)
         _CASES['C'] = Case
     return _CASES['C']
 
@@ -99,9 +110,10 @@ class C04(Prop):
                    'over testtools\' own results only; not-earlier also where shouldStop is the ExtendedToOriginalDecorator\'s own flag (Twisted-style targets), '
                    'but not over 2.6 / 2.7 style results, which own their shouldStop and are never told that a new run begins; the history assigns failfast only on '
                    'the outer object',
-                   'tests that terminate the interpreter (sys.exit / SystemExit inside a test: the exception propagates through testtools.run by design and becomes '
-                   'the exit status), sub-tests (addSubTest), suites whose run() returns None and messages with lone surrogates are outside the alphabets of the '
-                   'exit-status / summary model (six outcomes of well-behaved TestCases)',
+                   'a test whose code calls sys.exit(code), code in {0, None, 3}, is part of the exit-status scenario (SystemExit propagates through TestCase.run '
+                   'and the suite by design; the status observed is that of the SystemExit caught around the in-process TestProgram, None counting as 0 as '
+                   'the interpreter does); sub-tests (addSubTest), suites whose run() returns None and messages with lone surrogates are outside the alphabets '
+                   'of the exit-status / summary model',
                    'suites stop dispatching: modelled as "no further test after shouldStop" and checked through testtools.run -f on real TestCases']
 
     manifest = {
@@ -146,7 +158,8 @@ class C04(Prop):
             TestProgram(argv=['prog'] + (['-f'] if ff else []) + ['verif_c04_mod.test_suite'], stdout=out)
             code = 'no-exit'
         except SystemExit as e:
-            code = int(e.code) if isinstance(e.code, (bool, int)) else 'exit-' + type(e.code).__name__
+            # (the status the interpreter ends with for this SystemExit: None counts as 0)
+            code = 0 if e.code is None else int(e.code) if isinstance(e.code, (bool, int)) else 'exit-' + type(e.code).__name__
         return [code, parse_text(out.getvalue())]
 
     def run_impl(self, inp):
@@ -235,7 +248,10 @@ class C04(Prop):
         kinds = R.kinds_in(shape)
         prog = None
         if rng.random() < 0.3:
-            prog = some([rng.random() < 0.5, [rng.choice(R.KINDS + ['success', 'success']) for _ in range(rng.choice([0, 1, 2, 3, 4, 6]))]])
+            ks = [rng.choice(R.KINDS + ['success', 'success']) for _ in range(rng.choice([0, 1, 2, 3, 4, 6]))]
+            if ks and rng.random() < 0.15:
+                ks[rng.randrange(len(ks))] = rng.choice(EXITS)      # a test whose code calls sys.exit
+            prog = some([rng.random() < 0.5, ks])
         return [shape, self.gen_hist(rng, shape, kinds), prog]
 
     def gen_own_failfast(self, rng):
@@ -299,6 +315,10 @@ class C04(Prop):
                 for k2 in R.KINDS:
                     for k3 in ('success', 'failure'):
                         yield [F, [], some([ff, [k1, k2, k3]])]
+            for ex in EXITS:
+                for k1 in ('success', 'failure'):
+                    yield [F, [], some([ff, [k1, ex, 'failure']])]
+                yield [F, [], some([ff, [ex]])]
 
     def nontrivial(self, inp, trace):
         shape, hist, prog = inp
@@ -331,6 +351,7 @@ class C04(Prop):
                 f.append('call:' + c[0] + (str(c[1]) if len(c) > 1 else ''))
         if prog is not None:
             f.append('prog:ff=%s,n=%d,%s' % (prog[1][0], len(prog[1][1]), 'bad' if any(k in BAD for k in prog[1][1]) else 'clean'))
+            f += ['prog:' + k for k in prog[1][1] if k in EXITS]
         if trace and trace[0] == 'raised':
             f.append('raised:' + trace[1])
         elif trace:
